@@ -668,6 +668,9 @@ func (cpu *CPU) ChangeRegisterSizes_X() {
 	if cpu.X == 1 {
 		cpu.RXl = uint8(cpu.RX)
 		cpu.RYl = uint8(cpu.RY)
+		// switching to 8-bit index registers clears their high bytes for good
+		cpu.RX &= 0x00ff
+		cpu.RY &= 0x00ff
 	} else {
 		cpu.RX = cpu.RX&0xff00 | uint16(cpu.RXl)
 		cpu.RY = cpu.RY&0xff00 | uint16(cpu.RYl)
